@@ -3,4 +3,5 @@ let () =
   match Array.to_list Sys.argv with
   | [_; "opt"; path] -> Engine_opt.main path
   | [_; "parse"; path] -> Engine_parse.main path
+  | [_; "geom"; path] -> Engine_geom.main path
   | _ -> prerr_endline "usage: driver <engine> <casefile>"; exit 2
